@@ -1,4 +1,5 @@
 """C17: --gitignore copies exactly the entries the root .gitignore does not exclude (git's pattern semantics)."""
+from ..common import rmtree as _rmtree
 import json, os, shutil, subprocess
 from .. import build, runner, tlc
 from ..common import rng, scratch, ToolError
@@ -39,7 +40,7 @@ def keep_paths(keep):
 def git_check(lists, workdir):
     """spec vs git: returns list of disagreements (must be empty)."""
     root = os.path.join(workdir, "gitcheck")
-    shutil.rmtree(root, ignore_errors=True)
+    _rmtree(root)
     subprocess.run(["git", "init", "-q", root], check=True)
     make_tree(root)
     paths = ["/".join(c) for c, k in TREE]
@@ -58,7 +59,7 @@ def git_check(lists, workdir):
         git_keep = set(paths) - ign
         if git_keep != want_keep:
             bad.append({"pats": [render(p) for p in l["pats"]], "spec_only_keeps": sorted(want_keep - git_keep), "git_only_keeps": sorted(git_keep - want_keep)})
-    shutil.rmtree(root, ignore_errors=True)
+    _rmtree(root)
     return bad
 
 def fault_pass(ctx, binary, work, lists):
@@ -67,12 +68,12 @@ def fault_pass(ctx, binary, work, lists):
     for li, l in enumerate(lists):
         for drv in ("parfile", "parblock"):
             for sysc in ("statx", "newfstatat"):
-                for when in range(1, 31, 2 if ctx.tier == "quick" else 1):
+                for when in range(1, 41):
                     jobs.append((li, l, drv, sysc, when))
     def one(j):
         li, l, drv, sysc, when = j
         root = os.path.join(work, "f%d-%s-%s-%d" % (li, drv, sysc, when))
-        shutil.rmtree(root, ignore_errors=True); os.makedirs(root)
+        _rmtree(root); os.makedirs(root)
         src = os.path.join(root, "src"); make_tree(src)
         with open(os.path.join(src, ".gitignore"), "w") as f:
             f.write("\n".join(render(p) for p in l["pats"]) + "\n")
@@ -83,7 +84,7 @@ def fault_pass(ctx, binary, work, lists):
         for d, ds, fs in os.walk(dst):
             for x in ds + fs:
                 got.append(os.path.relpath(os.path.join(d, x), dst))
-        shutil.rmtree(root, ignore_errors=True)
+        _rmtree(root)
         try:
             os.unlink(root + ".st")
         except OSError:
@@ -132,7 +133,7 @@ def run(ctx):
     def one(j):
         i, l, drv, spelling, flag = j
         root = os.path.join(work, "r%d-%s" % (i, drv))
-        shutil.rmtree(root, ignore_errors=True); os.makedirs(root)
+        _rmtree(root); os.makedirs(root)
         srcname = "a" if spelling == "rel-a" else "src"
         src = os.path.join(root, srcname)
         make_tree(src)
@@ -151,7 +152,7 @@ def run(ctx):
         for d, ds, fs in os.walk(dst):
             for x in ds + fs:
                 got.append(os.path.relpath(os.path.join(d, x), dst))
-        shutil.rmtree(root, ignore_errors=True)
+        _rmtree(root)
         def comps(rel):
             return [list(".g") if c == ".gitignore" else list(c) for c in rel.split("/")]
         return {"id": "%d/%s/%s%s" % (i, drv, spelling, "" if flag else "/noflag"), "pats": l["pats"], "obs": [comps(g) for g in sorted(got)], "gitignore": flag,
@@ -173,7 +174,7 @@ def run(ctx):
                           (rec["_lines"], drv, spelling, flag, v["missing"], v["extra"], sorted(keep) if flag else "everything", rec["_got"], rec["_exit"]),
                           {"kind": "c17", "lines": rec["_lines"], "driver": drv, "spelling": spelling, "expected": sorted(keep), "got": rec["_got"]},
                           sig={"lines": "|".join(rec["_lines"]), "driver": drv})
-    fault_pass(ctx, binary, work, [l for l in sample if any(p["dir"] for p in l["pats"])][:6])
+    fault_pass(ctx, binary, work, [l for l in sample if any(p["dir"] and not p["neg"] for p in l["pats"]) and len(keep_paths(l["keep"])) < len(TREE) - 2][:3 if ctx.tier == "quick" else 12])
     ctx.sample({"gitignore_lines": res[0]["_lines"], "copied": res[0]["_got"]}); ctx.sample({"gitignore_lines": res[7]["_lines"], "copied": res[7]["_got"]})
     ctx.rule = ("pattern lists of <= 2 lines from {literal, *, ?, leading /, trailing /, !, s/t, **/s, s/**, a/**/b} over {a, b, .}, with comment and "
                 "blank lines interleaved, against a fixed 20-entry tree (nested directories, hidden files, the .gitignore itself, a link to a "
